@@ -8,7 +8,10 @@
 (*                   ->  class  ->  what must be observed                    *)
 (*                                                                           *)
 (* A value is <<"obj", <<<<key index, value>>, ...>>>>, <<"arr", <<values>>>> *)
-(* or <<"s", scalar index>>; scalars and keys come from the tables below.     *)
+(* or <<"s", scalar index>> (a scalar of the table below) or <<"c", chars>>,   *)
+(* a scalar given by its source text as a sequence of one-character strings,  *)
+(* which the specification classifies by SYNTAX (LitClass): the grammar of the *)
+(* supported numbers and strings is part of this module.                      *)
 (* Gaps: whitespace may appear before every value / key / closing bracket     *)
 (* (anything: SP, TAB, LF) and before ',' and ':' (no line break there: the   *)
 (* example uses WsSpaces for separators) and around the document.             *)
@@ -42,6 +45,79 @@ Keys == <<"\"\"", "\"a\"", "\"b\"", "\"c\"">>         \* in ascending order of t
 Ws == <<"", " ", "\n", " \t", "\n  ">>               \* choices for a gap; 3 and 5 contain a line break
 HasNl(i) == i \in {3, 5}
 
+\* ---- scalars given by their source text -------------------------------------------------------------------
+\* chars: a sequence of one-character strings.  LitClass(chars) = <<class, skeleton tag>>:
+\*   integers    -?(0|[1-9][0-9]*)               supported when inside int64, otherwise unsupported
+\*   decimals    -?(0|[1-9][0-9]*).[0-9]+([eE][+-]?[0-9]{1,2})?   supported (far inside float64's range)
+\*   strings     "..." of printable ASCII other than " and \, non-ASCII characters, and the escapes
+\*               \" \\ \n \t \r \b \f \uXXXX (not a surrogate); \/ and surrogate escapes are valid JSON the grammar lacks
+\*   Go-style numbers (leading zeros, leading + or ., hexadecimal) are "nonjson"; anything else is "other"
+SafeChars == {" ", "!", "#", "$", "%", "&", "'", "(", ")", "*", "+", ",", "-", ".", "/", "0", "1", "2", "3", "4", "5", "6", "7", "8", "9", ":", ";", "<", "=", ">", "?", "@", "A", "B", "C", "D", "E", "F", "G", "H", "I", "J", "K", "L", "M", "N", "O", "P", "Q", "R", "S", "T", "U", "V", "W", "X", "Y", "Z", "[", "]", "^", "_", "`", "a", "b", "c", "d", "e", "f", "g", "h", "i", "j", "k", "l", "m", "n", "o", "p", "q", "r", "s", "t", "u", "v", "w", "x", "y", "z", "{", "|", "}", "~",
+              "é", "世", "ß"}
+DigitChars == <<"0", "1", "2", "3", "4", "5", "6", "7", "8", "9">>
+IsDig(c) == \E i \in 1..10 : DigitChars[i] = c
+DigVal(c) == (CHOOSE i \in 1..10 : DigitChars[i] = c) - 1
+IsHex(c) == IsDig(c) \/ c \in {"a", "b", "c", "d", "e", "f", "A", "B", "C", "D", "E", "F"}
+RECURSIVE DigRun(_, _)
+DigRun(cs, i) == IF i <= Len(cs) /\ IsDig(cs[i]) THEN DigRun(cs, i + 1) ELSE i      \* index after the run of digits at i
+\* digit strings of equal length compare like numbers
+RECURSIVE LeqDigits(_, _, _)
+LeqDigits(a, b, i) == IF i > Len(a) THEN TRUE
+                      ELSE IF DigVal(a[i]) < DigVal(b[i]) THEN TRUE
+                      ELSE IF DigVal(a[i]) > DigVal(b[i]) THEN FALSE ELSE LeqDigits(a, b, i + 1)
+MaxInt64 == <<"9", "2", "2", "3", "3", "7", "2", "0", "3", "6", "8", "5", "4", "7", "7", "5", "8", "0", "7">>
+MinInt64Abs == <<"9", "2", "2", "3", "3", "7", "2", "0", "3", "6", "8", "5", "4", "7", "7", "5", "8", "0", "8">>
+InInt64(neg, ds) == Len(ds) < 19 \/ (Len(ds) = 19 /\ LeqDigits(ds, IF neg THEN MinInt64Abs ELSE MaxInt64, 1))
+
+NumClass(cs) ==
+  LET neg == cs[1] = "-"
+      i0 == IF neg THEN 2 ELSE 1
+      i1 == DigRun(cs, i0)                               \* after the integer part
+      ip == SubSeq(cs, i0, i1 - 1)
+      jsonInt == Len(ip) >= 1 /\ (Len(ip) = 1 \/ ip[1] # "0")
+  IN IF i1 = i0 THEN <<"other", "">>                      \* no integer part (.5, -, +1 are classified by the caller)
+     ELSE IF i1 > Len(cs)
+          THEN IF ~jsonInt THEN <<"nonjson", "">>
+               ELSE IF InInt64(neg, ip) THEN <<"supported", "i">> ELSE <<"unsupported", "">>
+     ELSE IF cs[i1] = "."
+          THEN LET i2 == DigRun(cs, i1 + 1) IN
+               IF i2 = i1 + 1 THEN <<"other", "">>          \* "1." : no digit after the point
+               ELSE IF i2 > Len(cs) THEN (IF jsonInt /\ Len(cs) <= 40 THEN <<"supported", "f">> ELSE <<"other", "">>)
+               ELSE IF cs[i2] \in {"e", "E"}
+                    THEN LET i3 == IF i2 + 1 <= Len(cs) /\ cs[i2 + 1] \in {"+", "-"} THEN i2 + 2 ELSE i2 + 1
+                             i4 == DigRun(cs, i3)
+                         IN IF i4 > i3 /\ i4 > Len(cs) /\ i4 - i3 <= 2 /\ jsonInt /\ Len(cs) <= 40 THEN <<"supported", "f">> ELSE <<"other", "">>
+                    ELSE <<"other", "">>
+     ELSE IF cs[i1] \in {"e", "E"} THEN <<"unsupported", "">>   \* exponent without a fraction: JSON, not in the grammar (when well-formed; no obligation either way)
+     ELSE <<"other", "">>
+
+RECURSIVE StrBody(_, _)
+\* scans the characters after the opening quote; result "supported" | "unsupported" | "other"
+StrBody(cs, i) ==
+  IF i > Len(cs) THEN "other"                                     \* unterminated
+  ELSE IF cs[i] = "\"" THEN (IF i = Len(cs) THEN "supported" ELSE "other")
+  ELSE IF cs[i] = "\\"
+       THEN IF i + 1 > Len(cs) THEN "other"
+            ELSE IF cs[i + 1] \in {"\"", "\\", "n", "t", "r", "b", "f"} THEN StrBody(cs, i + 2)
+            ELSE IF cs[i + 1] = "/" THEN (IF StrBody(cs, i + 2) = "other" THEN "other" ELSE "unsupported")
+            ELSE IF cs[i + 1] = "u"
+                 THEN IF i + 5 <= Len(cs) /\ \A q \in (i + 2)..(i + 5) : IsHex(cs[q])
+                      THEN IF cs[i + 2] \in {"d", "D"} /\ cs[i + 3] \in {"8", "9", "a", "b", "c", "d", "e", "f", "A", "B", "C", "D", "E", "F"}
+                           THEN (IF StrBody(cs, i + 6) = "other" THEN "other" ELSE "unsupported")     \* a surrogate half
+                           ELSE StrBody(cs, i + 6)
+                      ELSE "other"
+            ELSE "other"
+  ELSE IF cs[i] \in SafeChars THEN StrBody(cs, i + 1)
+  ELSE "other"
+
+LitClass(cs) ==
+  IF cs = <<>> THEN <<"other", "">>
+  ELSE IF cs[1] = "\"" THEN (LET c == StrBody(cs, 2) IN <<c, IF c = "supported" THEN "s" ELSE "">>)
+  ELSE IF IsDig(cs[1]) \/ (cs[1] = "-" /\ Len(cs) >= 2 /\ IsDig(cs[2])) THEN NumClass(cs)
+  ELSE <<"other", "">>
+RECURSIVE Concat(_)
+Concat(cs) == IF cs = <<>> THEN "" ELSE Head(cs) \o Concat(Tail(cs))
+
 \* ---- rendering as a TOKEN sequence (brackets, separators, scalars, keys and whitespace strings are tokens) ----------
 \* threads a gap counter g through the document; the whitespace of gap number g is Ws[pat[(g % Len(pat)) + 1]]
 \* returns <<tokens, next gap counter, a line break was placed before a separator>>
@@ -50,6 +126,7 @@ Gap(pat, g) == pat[(g % Len(pat)) + 1]
 W(pat, g) == <<Ws[Gap(pat, g)]>>
 Ren(v, pat, g) ==
   IF v[1] = "s" THEN <<<<Scalars[v[2]][1]>>, g, FALSE>>
+  ELSE IF v[1] = "c" THEN <<<<Concat(v[2])>>, g, FALSE>>
   ELSE IF v[1] = "arr" THEN RenArr(v[2], 1, pat, g, <<"[">>, FALSE)
   ELSE RenObj(v[2], 1, pat, g, <<"{">>, FALSE)
 RenArr(vs, i, pat, g, acc, bad) ==
@@ -85,9 +162,9 @@ FirstSolid(ts) == CHOOSE k \in 1..Len(ts) : ~IsWsTok(ts[k]) /\ \A j \in 1..(k - 
 Trailers == <<" x", "]", " 1", ",", "}">>
 Applicable(v, ts, cor) ==
   CASE cor[1] = "none" -> TRUE
-    [] cor[1] = "trunc" -> v[1] # "s" /\ cor[2] >= FirstSolid(ts) /\ cor[2] < LastSolid(ts)
+    [] cor[1] = "trunc" -> v[1] \notin {"s", "c"} /\ cor[2] >= FirstSolid(ts) /\ cor[2] < LastSolid(ts)
     [] cor[1] = "trail" -> cor[2] \in 1..Len(Trailers)
-    [] cor[1] = "drop" -> v[1] # "s" /\ cor[2] \in 1..Len(ts) /\ (ts[cor[2]] = ":" \/ cor[2] = LastSolid(ts))
+    [] cor[1] = "drop" -> v[1] \notin {"s", "c"} /\ cor[2] \in 1..Len(ts) /\ (ts[cor[2]] = ":" \/ cor[2] = LastSolid(ts))
     [] cor[1] = "comma" -> cor[2] \in 1..(Len(ts) + 1)
     [] OTHER -> FALSE
 Corrupt(ts, cor) ==
@@ -101,11 +178,13 @@ Corrupt(ts, cor) ==
 RECURSIVE ScalarClasses(_)
 ScalarClasses(v) ==
   IF v[1] = "s" THEN {Scalars[v[2]][2]}
+  ELSE IF v[1] = "c" THEN {LitClass(v[2])[1]}
   ELSE IF v[1] = "arr" THEN UNION {ScalarClasses(v[2][i]) : i \in 1..Len(v[2])}
   ELSE UNION {ScalarClasses(v[2][i][2]) : i \in 1..Len(v[2])}
 Class(v, pat) ==
   LET cs == ScalarClasses(v) IN
-  IF "nonjson" \in cs THEN "nonjson"
+  IF "other" \in cs THEN "other"
+  ELSE IF "nonjson" \in cs THEN "nonjson"
   ELSE IF "unsupported" \in cs \/ NlBeforeSep(v, pat) THEN "unsupported"
   ELSE "supported"
 
@@ -114,6 +193,7 @@ RECURSIVE Skel(_), SkelArr(_, _), SkelObj(_, _)
 LastOf(ms, k) == CHOOSE i \in 1..Len(ms) : ms[i][1] = k /\ \A j \in (i + 1)..Len(ms) : ms[j][1] # k
 Skel(v) ==
   IF v[1] = "s" THEN Scalars[v[2]][3]
+  ELSE IF v[1] = "c" THEN LitClass(v[2])[2]
   ELSE IF v[1] = "arr" THEN "[" \o SkelArr(v[2], 1) \o "]"
   ELSE "{" \o SkelObj(v[2], 1) \o "}"
 SkelArr(vs, i) == IF i > Len(vs) THEN "" ELSE Skel(vs[i]) \o (IF i < Len(vs) THEN "," ELSE "") \o SkelArr(vs, i + 1)
